@@ -86,8 +86,8 @@ Inductive instr :=
 | IWait (t : tid)
 | IUSLookup (t : tid) (s : sid) (e : ev)
 | IUSFilter (t : tid) (s : sid) (e : ev)
-| IKidLoad (t : tid) (s : sid) (e : ev)
-| IKidWrite (t : tid) (s : sid) (e : ev)
+| IKidLoad (t : tid) (s : sid) (e : ev) (inl : bool)   (* inl: called inline by UpdateSubscription, not a fan-out child *)
+| IKidWrite (t : tid) (s : sid) (e : ev) (inl : bool)
 | IKidDone (t : tid) (s : sid)
 | ICELookup (t : tid) (c : cek)
 | ICESnap (t : tid) (c : cek)
@@ -490,7 +490,7 @@ Section Exec.
       let gone := filter (fun s => s_removed (subs st s)) l in
       Some (st_log (st_trg st t (trg_set_wg (trigs st t) kids)) (map (fun s => GMissed s e) gone),
             [IWait t],
-            map (fun s => (TCh s, [IYield PX0; IKidLoad t s e; IKidDone t s])) kids)
+            map (fun s => (TCh s, [IYield PX0; IKidLoad t s e false; IKidDone t s])) kids)
     | IWait t, XNone => match t_wg (trigs st t) with [] => ret st [] | _ :: _ => None end
 
     (* handleUpdateSubscription *)
@@ -503,13 +503,13 @@ Section Exec.
            | FErr => ret st [IWriteErr s]
            | FPass =>
              if s_removed (subs st s) then ret (st_log st [GMissed s e; GAccept t e [s]]) []
-             else ret (st_log st [GAccept t e [s]]) [IYield PX0; IKidLoad t s e]
+             else ret (st_log st [GAccept t e [s]]) [IYield PX0; IKidLoad t s e true]
            end
 
     (* executeSubscriptionUpdate *)
-    | IKidLoad t s e, XNone =>
-      if ev_bad e then ret st [IWriteErr s] else ret st [IYield PW; IKidWrite t s e]
-    | IKidWrite t s e, XNone =>
+    | IKidLoad t s e il, XNone =>
+      if ev_bad e then ret st [IWriteErr s] else ret st [IYield PW; IKidWrite t s e il]
+    | IKidWrite t s e il, XNone =>
       if s_removed (subs st s) then ret (st_log st [GMissed s e]) []
       else match wresf s e with
            | WOk => ret (emit st [OW s (CWrite e); OW s CFlush]) []
